@@ -36,11 +36,12 @@ type VerifPoolEvent struct {
 var (
 	verifEnabled atomic.Bool
 	verifMu      sync.Mutex
-	verifLive    = map[uintptr]struct{}{} // handed out, not yet released
-	verifQ       []Buffer                 // quarantine, FIFO
-	verifQSet    = map[uintptr]struct{}{}
-	verifRep     VerifPoolReport
-	verifTraceN  int
+	verifLive    = map[uintptr]Buffer{} // handed out, not yet released; the reference keeps a buffer that is never
+	// released (leaked) from being collected, so its address cannot come back as a "new" buffer in the trace
+	verifQ      []Buffer // quarantine, FIFO
+	verifQSet   = map[uintptr]struct{}{}
+	verifRep    VerifPoolReport
+	verifTraceN int
 )
 
 // VerifPoison switches the hook on or off. traceLen is the maximum number of events recorded.
@@ -51,6 +52,7 @@ func VerifPoison(on bool, traceLen int) {
 	verifTraceN = traceLen
 	if !on {
 		verifDrainLocked(0)
+		clear(verifLive)
 	}
 }
 
@@ -79,7 +81,7 @@ func verifOnGet(b Buffer) {
 	}
 	verifMu.Lock()
 	verifRep.Gets++
-	verifLive[verifID(b)] = struct{}{}
+	verifLive[verifID(b)] = full
 	if len(verifRep.Trace) < verifTraceN {
 		verifRep.Trace = append(verifRep.Trace, VerifPoolEvent{Get: true, Buf: verifID(b)})
 	}
